@@ -10,5 +10,14 @@ os.makedirs(d, exist_ok=True)
 open(os.path.join(d, 'w.rs'), 'w').write('use vstd::prelude::*;\nverus!{ proof fn t() ensures 1 + 1 == 2int {} }\nfn main(){}\n')
 p = subprocess.run(['verus', 'w.rs'], cwd=d, capture_output=True, text=True)
 print(p.stdout.strip()[-200:])
+# pre-build the replay crate (bounded stand-in / failing-input search) so that checks only rebuild incrementally
+import sys
+sys.path.insert(0, os.path.join(ROOT, 'tool'))
+try:
+    import runcheck
+    b, err = runcheck.replay_bin()
+    print('replay crate:', b or ('NOT BUILT: ' + err[-300:]))
+except Exception as e:
+    print('replay crate build skipped:', e)
 print('setup ok' if p.returncode == 0 else 'verus warm-up failed: ' + p.stderr[-500:])
 raise SystemExit(0 if p.returncode == 0 else 1)
